@@ -175,6 +175,13 @@ def r20_3(ctx: Ctx):
         fd = [c for c in ast.walk(loops[0]) if isinstance(c, ast.Call) and norm(c.func) == "format_deme"]
         ok_rec = len(rec) == 1 and rec[0].args and norm(rec[0].args[0]) == child and any(norm(k.value) == ps[2] for k in rec[0].keywords if k.arg == ps[2]) or (len(rec) == 1 and len(rec[0].args) >= 3 and norm(rec[0].args[2]) == ps[2] and norm(rec[0].args[0]) == child)
         ok_fd = len(fd) == 1 and [norm(a) for a in fd[0].args] + [norm(k.value) for k in fd[0].keywords] == [child, ps[2]]
+        if not ok_fd and len(fd) == 1 and not any(isinstance(a, ast.Starred) for a in fd[0].args) and all(k.arg for k in fd[0].keywords):
+            # further (optional) parameters of format_deme may be passed along: what matters is which deme and which best fitness
+            fdf = ctx.prog.modules["pyhms.utils.print_tree"].functions["format_deme"]
+            fp = fdf.params()
+            bound = dict(zip(fp, fd[0].args))
+            bound.update({k.arg: k.value for k in fd[0].keywords})
+            ok_fd = len(fp) >= 2 and fp[0] in bound and norm(bound[fp[0]]) == child and fp[1] in bound and norm(bound[fp[1]]) == ps[2]
         obs.append(ctx.ob("R20.3", f, rec[0] if rec else loops[0], status=OK if ok_rec else VIOLATION, detail="recursion on the child with the same best fitness" if ok_rec else "the children renderer does not recurse on each child with the global best fitness", construct="recursion"))
         obs.append(ctx.ob("R20.3", f, fd[0] if fd else loops[0], status=OK if ok_fd else VIOLATION, detail="each displayed child formatted with the global best fitness" if ok_fd else "children lines are not produced by format_deme(child, best_fitness)", construct="child-line"))
     return obs
